@@ -65,11 +65,11 @@ _ENUM_PLAN = {
     # name: (tier set, builder, shards quick, shards thorough)
     "op1": (lambda tier: G.cells_1op([1, 2, 3] if tier == "quick" else [1, 2, 3, 4])),
     "special": (lambda tier: G.cells_special([1, 2, 3] if tier == "quick" else [1, 2, 3, 4])),
-    "op2": (lambda tier: G.cells_2op([1, 2, 3], "rep") if tier == "quick" else G.cells_2op([1, 2, 3, 4], "rep")),
+    "op2": (lambda tier: G.cells_2op([1, 2, 3], "repn") if tier == "quick" else G.cells_2op([1, 2, 3, 4], "rep")),
     "op2all": (lambda tier: G.cells_2op([1, 2], "all")),
 }
-_NSHARDS = {"quick": {"op1": 3, "special": 3, "op2": 42}, "thorough": {"op1": 8, "special": 6, "op2": 120, "op2all": 120}}
-_HYP = {"quick": (16, 40, 4, 30), "thorough": (96, 300, 32, 200)}  # narrow shards, examples each, wide shards, examples
+_NSHARDS = {"quick": {"op1": 4, "special": 4, "op2": 32}, "thorough": {"op1": 8, "special": 6, "op2": 160, "op2all": 160}}
+_HYP = {"quick": (12, 36, 4, 24), "thorough": (96, 170, 24, 100)}  # narrow shards, examples each, wide shards, examples
 
 
 def plan(tier):
@@ -225,6 +225,11 @@ class _Run:
             r = res[idxs[0]]
             r.status, r.why = "rejected", str(rej)[:200]
             return res
+        # inputs start from a valuation for which the model determines every expression (instead of 'U'): a VHDL
+        # run-time error at time 0 caused by undefined inputs (to_integer("UUU") = 0 as a divisor ...) is not judged
+        j0 = next((j for j in range(len(self.pokes)) if all(self.M[i][j] is not None for i in idxs)), None)
+        if simulate and j0 is not None:
+            vhdl = _with_input_defaults(vhdl, self.slots, self.pokes[j0])
         d = analyse(vhdl)
         if d.unsupported or d.errors:
             if len(idxs) > 1:
@@ -300,8 +305,8 @@ class _Run:
         # the concurrent temporaries that depends on the previous valuation) or independent of the history?
         genuine = []
         for j, e in pending:
-            step = max(1, len(ok_vals) // 5)
-            routes = ok_vals[::step][:6]
+            step = max(1, len(ok_vals) // 80)
+            routes = ok_vals[::step][:80]
             done = False
             for r_ in routes:
                 try:
@@ -325,7 +330,7 @@ class _Run:
             r.findings.append(("c", f"sim_error:{e.kind}",
                                f"{self._valtxt(j)}: VHDL run-time error {e}; model value {self.M[idxs[0]][j]} "
                                f"[{len(genuine)} of {len(self.pokes)} valuations; reached from "
-                               f"{min(6, len(ok_vals)) + 1} different previous valuations]"))
+                               f"{min(80, len(ok_vals)) + 1} different previous valuations]"))
             r.n_cmp += len(genuine)
         for (i, ctx), m in mism.items():
             res[i].findings.append((ctx, "value", f"{m[0]}  [{m[1]} of {res[i].n_cmp} valuations differ]"))
@@ -399,6 +404,33 @@ class _Run:
         return res
 
 
+def _with_input_defaults(vhdl, slots, poke):
+    """add `:= value` to the input ports of entity Top."""
+    import re
+
+    out, inside = [], False
+    widths = {s[0]: s[2] for s in slots}
+    for ln in vhdl.split("\n"):
+        st = ln.strip()
+        if st.startswith("entity Top is"):
+            inside = True
+        elif inside and st.startswith("end"):
+            inside = False
+        elif inside:
+            m = re.match(r"^(\s*)(\w+) : in (\w+)(\([^)]*\))?(;?)\s*$", ln)
+            if m and m.group(2) in poke:
+                v, ty = poke[m.group(2)], m.group(3)
+                if ty == "std_logic":
+                    lit = f"'{int(v) & 1}'"
+                elif ty == "boolean":
+                    lit = "true" if v else "false"
+                else:
+                    lit = '"' + format(int(v), f"0{widths[m.group(2)]}b") + '"'
+                ln = f"{m.group(1)}{m.group(2)} : in {ty}{m.group(4) or ''} := {lit}{m.group(5)}"
+        out.append(ln)
+    return "\n".join(out)
+
+
 def _line(vhdl, n):
     ls = vhdl.splitlines()
     return ls[n - 1].strip() if n and 0 < n <= len(ls) else ""
@@ -431,6 +463,8 @@ def _signature(R, t, ctx, div):
         sig["wrel"] = "eq" if widths[0] == widths[1] else "lt" if widths[0] < widths[1] else "gt"
     if any(not G.is_leaf(c) for c in kids):
         sig["operands"] = ["leaf" if G.is_leaf(c) else c[0] for c in kids]
+    if div.startswith("sim_error") and any(not -(1 << 31) <= n < (1 << 31) for n in G._tree_lits(t)):
+        sig["big_literal"] = True  # int literal outside the 32 bit range of VHDL INTEGER
     return sig
 
 
@@ -483,6 +517,13 @@ def check(case):
                 out.labels.append(f"op:{o}")
         else:
             out.counters["exprs_" + r.status] = out.counters.get("exprs_" + r.status, 0) + 1
+            if r.status == "blocked":
+                k = "blocked:" + r.why[:90]
+                out.counters[k] = out.counters.get(k, 0) + 1
+            elif r.status == "static":
+                for l in set(r.labels):
+                    k = f"static:{l}:{root}"
+                    out.counters[k] = out.counters.get(k, 0) + 1
         for ctx, div, detail in r.findings:
             bt, bdetail = t, None
             if G.n_ops(t) > 1 and run.do_localize and div not in ("kind", "width"):
